@@ -35,6 +35,7 @@ def run(ctx):
     ctx.build()
     import c03
     mcst = c03.mc(ctx, 3 if ctx.tier == "quick" else 4)
+    ctx.apalache("LayoutLemma", "Lemma")
     rng = random.Random(ctx.seed)
     quick = ctx.tier == "quick"
     R = flow.Runner(ctx)
@@ -105,7 +106,7 @@ def run(ctx):
                 "seeded lists of up to 64 items, RESB constants and addr-$ forms, ALIGNB 1..32 at every residue with aligned/unaligned ORG, "
                 "and every non-emitting directive between data; non-trivial = program assembled without any diagnostic" % (2 if quick else 3, len(alphabet)),
         "samples": [R.cases[i]["src"] for i in (0, len(R.cases) // 2, len(R.cases) - 1)],
-        "model_checking": "MC_Asm: Inv_C05 (data bytes, padding, directives emit nothing) holds in all %d states of all programs of length <= %d over a 15-statement alphabet" % (mcst["distinct"], 3 if ctx.tier == "quick" else 4), "tlc_runs": ctx.tlc_stats[:12],
+        "model_checking": "MC_Asm: Inv_C05 (data bytes, padding, directives emit nothing) holds in all %d states of all programs of length <= %d over a 15-statement alphabet" % (mcst["distinct"], 3 if ctx.tier == "quick" else 4), "symbolic_lemma": "LayoutLemma.tla (Apalache, all 32-bit addresses): AlignPad is the least non-negative padding that aligns, it is invariant under shifts by multiples of the alignment, and embedding modulo 2^16 commutes with addition", "tlc_runs": ctx.tlc_stats[:12],
         "exhaustive": not quick,
     }
     return report.finish(ctx, "C05", viol, known, other, R, cov, ASSUME)
